@@ -209,6 +209,9 @@ def array_pass(ctx, np):
                 for op in (ops_b if ctx.quick else ops_b + ['div']):
                     try:
                         Z = BIN[op](X, Y)
+                    except ZeroDivisionError:
+                        ctx.count('array-div-by-non-invertible')       # the denominator vanishes identically for this key pattern
+                        continue
                     except Exception as e:
                         ctx.violation('raises', {'sig': sig, 'op': op, 'shape': shape, 'container': container}, 'a result', repr(e)[:200], key=f'array:raises:{op}')
                         continue
@@ -217,6 +220,9 @@ def array_pass(ctx, np):
                         ctx.case(case, tag=f'array:{container}')
                         try:
                             l = Z[idx]; r = BIN[op](X[idx], Y[idx])
+                        except ZeroDivisionError:
+                            ctx.count('array-div-by-non-invertible')
+                            continue
                         except Exception as e:
                             ctx.violation('index-raises', case, 'a result', repr(e)[:200], key=f'array:index-raises:{container}')
                             continue
@@ -286,10 +292,10 @@ def arr_mv_equal(a, b, np):
         da = {k: np.array(v, dtype=float) for k, v in zip(a.keys(), a.values())}
         db = {k: np.array(v, dtype=float) for k, v in zip(b.keys(), b.values())}
         keys = set(da) | set(db)
-        return all(np.array_equal(np.broadcast_arrays(da.get(k, 0.0), db.get(k, 0.0))[0], np.broadcast_arrays(da.get(k, 0.0), db.get(k, 0.0))[1]) for k in keys)
+        return all(np.array_equal(np.broadcast_arrays(da.get(k, 0.0), db.get(k, 0.0))[0], np.broadcast_arrays(da.get(k, 0.0), db.get(k, 0.0))[1], equal_nan=True) for k in keys)
     for va, vb in zip(a.values(), b.values()):
         va, vb = np.array(va, dtype=float), np.array(vb, dtype=float)
-        if va.shape != vb.shape or not np.allclose(va, vb, rtol=1e-12, atol=1e-12):
+        if va.shape != vb.shape or not np.allclose(va, vb, rtol=1e-12, atol=1e-12, equal_nan=True):     # a non-invertible entry is nan/inf on both sides
             return False
     return True
 
